@@ -41,9 +41,6 @@ def extendPerm (be : Backend) (n p m : Nat) (small : Array Nat) : Vector (Fin (n
 def KM.inner (km : KM) : Inner QQ km.n km.p km.m :=
   if km.be.isDense then innerLLT (QQ.sqrtMode km.sqrtMode) else innerLDLT km.be km.perm
 
-def KM.factor (km : KM) : KBlocks QQ km.n km.p km.m → Bool :=
-  if km.be.isDense then factorLLT (QQ.sqrtMode km.sqrtMode) else factorLDLT km.be km.perm
-
 def zeroStep (n p m : Nat) : Step QQ n p m :=
   ⟨poisonVec n, poisonVec p, poisonVec m, poisonVec n, poisonVec n, poisonVec m, poisonVec n, poisonVec n⟩
 
@@ -135,19 +132,19 @@ def kmStep (km : KM) (cmd : String) : P (KM × List String) := do
     pure ({ km with k := KKT.updateData km.be km.d km.k a b c }, [])
   | "kkt.factor" =>
     let r ← bool
-    let k := KKT.regFactor km.be km.st km.d km.k r km.factor
+    let k := KKT.regFactor km.be km.st km.d km.k r km.inner
     pure ({ km with k := k }, [s!"factor {if k.factOk then 1 else 0}"])
   | "kkt.solve" =>
     let r ← bool
     let rhs ← parseStep km
-    match KKT.solve km.be km.st km.inner km.d km.k rhs (zeroStep km.n km.p km.m) r with
+    match KKT.solve km.be km.st km.d km.k rhs (zeroStep km.n km.p km.m) r with
     | none => pure (km, ["solve none"])
     | some out => pure (km, stepLines km "d" out)
   | "kkt.resid" =>
     -- multiply(solve(rhs)) - rhs : all zeros iff the returned step solves the full Newton system exactly
     let r ← bool
     let rhs ← parseStep km
-    match KKT.solve km.be km.st km.inner km.d km.k rhs (zeroStep km.n km.p km.m) r with
+    match KKT.solve km.be km.st km.d km.k rhs (zeroStep km.n km.p km.m) r with
     | none => pure (km, ["resid none"])
     | some out =>
       let back := KKT.multiply km.d km.k out (zeroStep km.n km.p km.m)
